@@ -45,3 +45,12 @@ package consistenthash
 //@   loop 1 invariant 0 <= j && j < ch.m && ch.m == old(ch.m) && len(permutation) == ch.m && fresh(permutation)
 //@   loop 1 invariant 0 <= offset && offset < ch.m && 1 <= skip && skip <= ch.m - 1 && chOff == offset && chSkip == skip
 //@   loop 1 invariant forall k int :: 0 <= k && k < j ==> permutation[k] == (offset + k * skip) % ch.m && 0 <= permutation[k] && permutation[k] < ch.m
+
+//@ -- Node independence of the fill: whatever order the backends were learned in, the table is filled by
+//@ -- visiting them in ascending name order - the names are sorted when the fill loop is entered (and the fill
+//@ -- does not reorder them).
+//@ func (*ConsistentHash).Generate
+//@   property C33
+//@   option safety off
+//@   requires ch != nil
+//@   loop 1 invariant forall i int, j int :: 0 <= i && i < j && j < len(ch.backendNames) ==> ch.backendNames[i] <= ch.backendNames[j]
